@@ -40,7 +40,10 @@ def gen_case(r, idx, env):
     cmd = None if r.random() < 0.3 else [r.choice(HOSTILE) for _ in range(r.randint(0, 4))]
     mounts = {}
     for _ in range(r.choice([0, 0, 1, 2, 3])):
-        mounts[r.choice(["/src/a", "/host path/with space", "rel/src", "/src=eq", "/-dash"])] = r.choice(["/target", "/t space", "/t=eq", "/-t"])
+        # (sources that do not exist on this host, and sources that do: reached through a symbolic link, or a directory without write bits - the
+        # source is passed on as it was configured, and the mount is read-write unless the configuration says otherwise)
+        mounts[r.choice(["/src/a", "/host path/with space", "rel/src", "/src=eq", "/-dash", os.path.join(env.root, "mnt-link", "sub"), os.path.join(env.root, "mnt-ro"),
+                         os.path.join(env.root, "mnt-link")])] = r.choice(["/target", "/t space", "/t=eq", "/-t"])
     if len(mounts) >= 2 and r.random() < 0.5:
         # two different sources mounted onto the same target: both mounts are handed to docker, which is the one to complain
         ks = sorted(mounts)
@@ -73,6 +76,15 @@ def gen_case(r, idx, env):
     c["shell"] = r.choice(HOSTILE)
     c["exec"] = r.choice(HOSTILE)
     return c
+
+
+def mount_sources(env):
+    """bind-mount sources that exist on the host"""
+    os.makedirs(os.path.join(env.root, "mnt-real", "sub"), exist_ok=True)
+    if not os.path.lexists(os.path.join(env.root, "mnt-link")):
+        os.symlink("mnt-real", os.path.join(env.root, "mnt-link"))
+    os.makedirs(os.path.join(env.root, "mnt-ro"), exist_ok=True)
+    os.chmod(os.path.join(env.root, "mnt-ro"), 0o555)
 
 
 def fixture_digest(path):
@@ -271,6 +283,7 @@ def shard_run(arg):
     sh = vp.Shard()
     env = testrun.Env(os.path.join(work, "w%d" % os.getpid()))
     env.create(FIXTURE)
+    mount_sources(env)
     try:
         for idx in idxs:
             run_case(env, gen_case(vp.rng(seed, "c17", idx), idx, env), sh)
@@ -296,6 +309,7 @@ def replay(case, work):
     sh = vp.Shard()
     env = testrun.Env(os.path.join(work, "replay"))
     env.create(FIXTURE)
+    mount_sources(env)
     run_case(env, case["case"], sh)
     sh.nontrivial.update({"replay-a", "replay-b"})
     res.merge(sh.dict())
